@@ -97,6 +97,47 @@ def vtype_alignment():
             declared.update(range(v.first, v.first + v.size))
         return all(str(F.vtype[j]) == "C" for j in range(nv) if j not in declared)
 
+    # dro: every event-wise copy of a decision entry carries the entry's declared type
+    def setup_dro(c):
+        from ..harness import dro
+        m = dro.Model(3)
+        mix = m.dvar(3, "CIB")
+        ci = m.dvar(2, "CI")
+        w = m.dvar(2)
+        i1 = m.dvar(2, "I")
+        z = m.rvar(2)
+        fs = m.ambiguity()
+        fs.suppset(z <= 1, z >= -1)
+        mix.adapt(1)
+        mix.adapt(2)
+        ci.adapt([0, 2])
+        w.adapt(0)
+        m.minsup(rsome.E(mix.sum() + ci.sum() + w.sum() + i1.sum() + (w * z).sum()), fs)
+        m.st(mix <= 4, mix >= 0, ci <= 4, ci >= 0, i1 >= 1, i1 <= 3, w >= z, w <= 5)
+        F = m.do_math()
+        rules = m.rule_var()
+        return {"m": m, "F": F, "rules": rules, "decl": [(mix, "CIB"), (ci, "CI"), (w, "CC"), (i1, "II")]}
+
+    def aligned_dro(ns, F):
+        from ..spec import views as V
+        seen = {}
+        for s, rule in enumerate(ns["rules"]):
+            aff = rule.affine if isinstance(rule, lp.RoAffine) else rule
+            R = V.dense(aff.linear)
+            for v, t in ns["decl"]:
+                for k in range(v.size):
+                    cols = [j for j in range(R.shape[1]) if R[v.first + k, j] != 0]
+                    if len(cols) != 1:
+                        return False
+                    if str(F.vtype[cols[0]]) != t[k]:
+                        return False
+                    seen[cols[0]] = t[k]
+        return all(str(F.vtype[j]) == "C" for j in range(F.linear.shape[1]) if j not in seen)
+    obs, _ = check_function("rsome.dro:Model.rule_var / do_math", setup_dro, lambda ns: ns["F"],
+                            [post("every-event-wise-copy-of-an-entry-has-the-entry's-type", aligned_dro)], mode="D",
+                            label="dro: mixed type strings with different event partitions", bounded=True)
+    out += obs
+
     for reform in (False, True):
         obs, _ = check_function("rsome.lp:Model.do_math(primal)", build(reform), lambda ns: ns["F"],
                                 [post("integrality-vector-aligned-with-columns", aligned)], mode="D",
